@@ -467,7 +467,8 @@ def run_free(binp, mode, seed, millis, flags, godebug=None, timeout=120):
     return json.loads(line)
 
 
-SLACK = 2_000_000_000      # a critical section never takes longer than this (2 s) even on a loaded machine
+SLACK = 10_000_000_000     # a clock reading handed to a trigger is never older than this (10 s), even on a loaded machine
+LATE_SLACK = 2_000_000_000 # between validateJob reading the clock and the trigger being called: far less than 2 s
 TOL = 1_000_000            # wall-clock comparisons: 1 ms
 
 
@@ -508,7 +509,7 @@ def free_oracles(run):
                 on_time.append(c)
                 if c["prev"] > c["wall"] + TOL:
                     f03.append({"key": key, "call": c, "why": "fire time %d consumed before the clock reached it (clock %d)" % (c["prev"], c["wall"])})
-                if c["wall"] - c["prev"] > thr + SLACK:
+                if c["wall"] - c["prev"] > thr + LATE_SLACK:
                     f04.append({"key": key, "call": c, "why": "fire time consumed as on time although it was %d ns late (threshold %d)" % (c["wall"] - c["prev"], thr)})
                 continue
             if not clockish:
@@ -672,3 +673,136 @@ def run_conc(binp, seed, rounds, variant, timeout=300):
     if rc != 0 and not races:
         raise RuntimeError("schedh conc failed (%s): %s" % (rc, out[-3000:]))
     return [json.loads(l) for l in lines], races, out
+
+
+# ---------------------------------------------------------------------------
+# the common shape of the checks C03 / C04 / C08
+# ---------------------------------------------------------------------------
+
+def tags_of_mismatch(m):
+    f = {"case": m.get("case", {}), "observed": m.get("observed", ""), "specification": m.get("model", "")}
+    try:
+        return tags_of(f)
+    except Exception:
+        return {"C03", "C04", "C08", "C09"}
+
+
+def free_phase(prop, binp, configs, millis, seeds):
+    key = {"C03": "c03", "C04": "c04", "C08": "c08"}[prop]
+    failures, runs = [], []
+    total = {}
+    for seed in seeds:
+        for (mode, flags, godebug) in configs:
+            run = run_free(binp, mode, seed, millis, flags, godebug)
+            o = free_oracles(run)
+            for k, v in o["counts"].items():
+                total[k] = total.get(k, 0) + v
+            runs.append({"mode": mode, "flags": flags, "godebug": godebug, "seed": seed, "events": len(run["events"]),
+                         "oracle_failures": len(o[key]), "lock_violations": run.get("lock_violations", 0)})
+            cfg = {"kind": "free", "mode": mode, "flags": flags, "godebug": godebug, "seed": seed, "millis": millis}
+            for f in o[key][:3]:
+                d = dict(f)
+                why = d.pop("why")
+                failures.append({"case": cfg, "detail": d, "why": [why]})
+            if prop in ("C03", "C08"):
+                for f in o["lock"]:
+                    failures.append({"case": cfg, "why": [f["why"]]})
+    return failures, runs, total
+
+
+def dynamic_check(ctx, prop, seed_offset, configs, rule, assumptions, partial_runtime):
+    res, broken = proof_step(ctx, prop)
+    binp = build_all()
+    ml, mlout = build_driver()
+    quick = ctx.tier == "quick"
+    st = run_steps(ctx, binp, ml, "fetch-quick" if quick else "fetch-thorough", ctx.seed + seed_offset, timeout=3000)
+    failures = [f for f in st["failures"] if prop in tags_of(f)]
+    mismatches = [m for m in st["mismatches"] if prop in tags_of_mismatch(m)]
+    if ml is None:
+        mismatches.append({"error": "the extracted model could not be built", "detail": mlout[-1500:]})
+    s = st["stats"]
+    if s["blocked"] and prop == "C04":
+        failures.append({"case": {"kind": "steps", "profile": "fetch", "seed": ctx.seed + seed_offset},
+                         "why": ["fetchAndReschedule blocked (>20 s) on %d steps: the offer to MisfiredChan is not non-blocking" % s["blocked"]]})
+    if s["lock_violations"] and prop in ("C03", "C08"):
+        failures.append({"case": {"kind": "lock-discipline", "profile": "fetch", "seed": ctx.seed + seed_offset},
+                         "why": ["queue.%s called by the scheduler without the queue locker held (%d of %d recorded queue calls)" % (
+                             s["first_violation"], s["lock_violations"], s["queue_calls_checked"])]})
+    ff, runs, total = free_phase(prop, binp, configs, 500 if quick else 3000, [ctx.seed] if quick else [ctx.seed, ctx.seed + 1, ctx.seed + 2])
+    failures += ff
+
+    def search():
+        found = []
+        for k in range(1, 3):
+            r = run_steps(ctx, binp, None, "fetch-quick", ctx.seed + seed_offset + 5000 * k, timeout=3000)
+            found += [f for f in r["failures"] if prop in tags_of(f)]
+            if found:
+                return found[:3]
+        f2, _, _ = free_phase(prop, binp, configs, 2500, [ctx.seed + 11, ctx.seed + 12])
+        return f2[:3]
+
+    vlib.decide(ctx, broken, failures, mismatches, search)
+    cov = vlib.proof_coverage(res, PROJ, prop)
+    cov.update({
+        "evaluations": st["api_calls"] + st["fetches"] + st["foreign"] + sum(r["events"] for r in runs),
+        "distinct_nontrivial": st["fetches"] - st["fetch_classes"].get("empty", 0),
+        "rule": rule,
+        "samples": runs[:4],
+        "exhaustive": False,
+        "step_sequences": s["sequences"],
+        "fetch_classes": st["fetch_classes"],
+        "result_classes": st["result_classes"],
+        "steps_without_verdict": st["no_verdict"],
+        "stalled_scenarios_retried": s["stalled_retries"],
+        "model_mismatches": len(mismatches),
+        "oracle_failures": len(failures),
+        "free_runs": runs,
+        "free_run_totals": total,
+        "lock_discipline": {"queue_calls_checked": s["queue_calls_checked"], "violations": s["lock_violations"]},
+        "partial_runtime": partial_runtime,
+    })
+    vlib.write_evidence(ctx, cov, assumptions=assumptions)
+    return 1 if ctx.violations else 0
+
+
+def dynamic_replay(ctx, prop, path):
+    obj = json.load(open(path))
+    case = obj.get("case", {})
+    if case.get("kind") == "free":
+        binp = build_all()
+        key = {"C03": "c03", "C04": "c04", "C08": "c08"}[prop]
+        bad = 0
+        for _ in range(3):  # a free-running schedule is not reproducible step by step: same configuration, three runs
+            run = run_free(binp, case["mode"], case["seed"], case["millis"], case["flags"], case.get("godebug"))
+            o = free_oracles(run)
+            bad += len(o[key]) + (len(o["lock"]) if prop in ("C03", "C08") else 0)
+        print(json.dumps({"oracle_failures_in_three_reruns": bad}))
+        if bad:
+            vlib.report_violation(ctx, obj)
+            return 1
+        return 0
+    r = replay_steps(ctx, obj)
+    if r is None:
+        print("the replay file does not name a step sequence")
+        return 0
+    fs = [f for f in r["failures"] if prop in tags_of(f)]
+    print(json.dumps({"failures": fs[:3], "lock_violations": r["stats"]["lock_violations"], "blocked": r["stats"]["blocked"]}, default=str))
+    if fs or r["stats"]["lock_violations"] or r["stats"]["blocked"]:
+        vlib.report_violation(ctx, obj)
+        return 1
+    return 0
+
+
+MODES = ["blocking", "pool", "unbounded"]
+COMMON_ASSUMPTIONS = [
+    "the JobQueue in use meets SchedModel.queue_contract (proved for two executable queues; compared with the default queue on every step)",
+    "each API body and each fetchAndReschedule is one atomic step (queue locker; regenerated as all_bodies_locked and observed by the recording locker)",
+    "the clock is non-decreasing (label LAdv dt requires dt >= 0)",
+    "triggers are arbitrary functions nft : tid -> state -> prev -> state * (fire time + error); nothing is assumed about them",
+]
+STEP_RULE = ("step correspondence: fixed scenarios plus random sequences of 40 steps (API calls, fetchAndReschedule through the verif hook, foreign "
+             "pushes/removes/clears) on never-started schedulers with the default queue, a copying queue and two schedulers sharing queue and "
+             "locker; fire times placed by margins (-60 s late, -3 s due, +1 h future; threshold 10 s) with scripted, SimpleTrigger and "
+             "RunOnceTrigger triggers, MisfiredChan nil / unbuffered / 1 / 64; every step's returned job and valid flag, trigger calls (prev, result), "
+             "misfire offer, Reset token and the whole registry compared with the extracted Coq model and with the property's own step "
+             "specification; non-trivial = a fetch that popped a job. ")
